@@ -101,6 +101,7 @@ int vorbis_synthesis_trackonly(vorbis_block *vb,ogg_packet *op){
 
   /* first things first.  Make sure decode is ready */
   _vorbis_block_ripcord(vb);
+  vb->pcm=NULL; /* it lived in the storage just released */
   oggpack_readinit(opb,op->packet,op->bytes);
 
   /* Check the packet type */
